@@ -498,7 +498,8 @@ def run(tier, rep):
                 tail = g.get('log_tail', '')
                 m = re.search(r'fatal error: ([^\n]*)', tail) or re.search(r'(panic: [^\n]*)', tail) or re.search(r'(runtime: [^\n]*)', tail)
                 what = normmsg(m.group(1)) if m else 'unknown'
-                rep.violation('C10|%s|%sprocess-abort:%s' % (sig_target(c), 'huge-size|' if huge else '', what), {'case': c, 'vrun_mode': 'call', 'args': args, 'log_tail': tail[-1500:]})
+                selfc = any(isinstance(a, str) and a.startswith('self') for a in args)          # a container that contains itself (known finding: unbounded recursion in the object model)
+                rep.violation('C10|%s|%sprocess-abort:%s' % (sig_target(c), 'huge-size|' if huge else ('self-containing|' if selfc else ''), what), {'case': c, 'vrun_mode': 'call', 'args': args, 'log_tail': tail[-1500:]})
                 ncalls += 1
                 continue
             ncalls += g.get('ncalls', 0)
